@@ -164,4 +164,188 @@ Proof.
   intros n L s1 s2 mu C es HA Hi. destruct (agr_all n) as (_ & K & _).
   eapply K; eauto. intros x [].
 Qed.
+
+(* ---------------------------------------------------------------- pure expressions leave the store alone *)
+Definition pure_at (n : nat) : Prop :=
+  (forall s mu C e v mu1, pure_na e = true -> eval N P n s mu C e = ROk (v, mu1) -> mu1 = mu) /\
+  (forall s mu C es vs mu1, forallb pure_na es = true -> evals N P n s mu C es = ROk (vs, mu1) -> mu1 = mu) /\
+  (forall s mu C v ops args w mu1, forallb pure_na args = true ->
+     cmp_chain N P n s mu C v ops args = ROk (w, mu1) -> mu1 = mu) /\
+  (forall s mu C u args w mu1, forallb pure_na args = true ->
+     bool_chain N P n s mu C u args = ROk (w, mu1) -> mu1 = mu).
+
+Ltac split_and :=
+  repeat match goal with
+  | H : _ && _ = true |- _ => apply andb_prop in H; destruct H
+  end.
+
+Ltac pstep Hev Hevs :=
+  match goal with
+  | H : ROk _ = ROk _ |- _ => inversion H; subst; clear H
+  | H : rbind (eval N P _ _ _ _ ?a) _ = ROk _ |- _ =>
+      let E := fresh "E" in let r := fresh "r" in let m := fresh "m" in let H' := fresh "H" in
+      destruct (rbind_ok _ _ _ _ _ H) as ([r m] & E & H'); clear H;
+      apply Hev in E; [ subst m | assumption ]
+  | H : rbind (evals N P _ _ _ _ ?a) _ = ROk _ |- _ =>
+      let E := fresh "E" in let r := fresh "r" in let m := fresh "m" in let H' := fresh "H" in
+      destruct (rbind_ok _ _ _ _ _ H) as ([r m] & E & H'); clear H;
+      apply Hevs in E; [ subst m | assumption ]
+  | H : rbind ?x _ = ROk _ |- _ =>
+      let E := fresh "E" in
+      destruct x eqn:E; cbn [rbind] in H; [ | discriminate H | discriminate H ]
+  | H : (let '(_, _) := ?x in _) = ROk _ |- _ => destruct x
+  | H : match ?x with _ => _ end = ROk _ |- _ => destruct x eqn:?; try discriminate H
+  | H : (if ?x then _ else _) = ROk _ |- _ => destruct x eqn:?; try discriminate H
+  end.
+
+Lemma pure_all : forall n, pure_at n.
+Proof.
+  induction n as [|n IH].
+  - unfold pure_at. repeat split; intros; discriminate.
+  - destruct IH as (Hev & Hevs & Hcmp & Hbool).
+    unfold pure_at. repeat split; intros.
+    + rewrite eval_S in H0. unfold eval_body in H0. unfold pure_na in *.
+      destruct e; cbn [expr_all q_pure_na] in H; try discriminate H; cbn [andb] in H; split_and;
+        try solve [ repeat pstep Hev Hevs; reflexivity ].
+      * (* ECompare *)
+        destruct args as [|a rest]; [discriminate|]. cbn [forallb] in *. split_and.
+        destruct (rbind_ok _ _ _ _ _ H0) as ([va m] & E & H'). apply Hev in E; [subst m|assumption].
+        eapply Hcmp; [|exact H']; assumption.
+      * eapply Hbool; [|exact H0]; assumption.
+      * eapply Hbool; [|exact H0]; assumption.
+      * (* EIf *)
+        destruct (rbind_ok _ _ _ _ _ H0) as ([vc m] & E & H'). apply Hev in E; [subst m|assumption].
+        destruct (as_bool vc) as [t| |]; cbn [rbind] in H'; try discriminate.
+        destruct t; (eapply Hev; [|exact H']); assumption.
+    + rewrite evals_S in H0. unfold evals_body in H0. destruct es as [|e r].
+      * inversion H0; reflexivity.
+      * cbn [forallb] in H. split_and. repeat pstep Hev Hevs. reflexivity.
+    + rewrite cmp_chain_S in H0. unfold cmp_chain_body in H0.
+      destruct ops as [|o ops'], args as [|e args']; try discriminate.
+      * inversion H0; reflexivity.
+      * cbn [forallb] in H. split_and.
+        destruct (is_ordering o).
+        -- destruct (as_num v) as [x| |]; cbn [rbind] in H0; try discriminate.
+           destruct (rbind_ok _ _ _ _ _ H0) as ([w' m] & E & H'). apply Hev in E; [subst m|assumption].
+           destruct (as_num w') as [y| |]; cbn [rbind] in H'; try discriminate.
+           destruct (cmp_test N o x y); [|inversion H'; reflexivity].
+           destruct ops'; [inversion H'; reflexivity|]. eapply Hcmp; [|exact H']; assumption.
+        -- destruct (rbind_ok _ _ _ _ _ H0) as ([w' m] & E & H'). apply Hev in E; [subst m|assumption].
+           destruct (value_eq N n mu v w') as [eq| |]; cbn [rbind] in H'; try discriminate.
+           destruct (match o with CNe => negb eq | _ => eq end); [|inversion H'; reflexivity].
+           destruct ops'; [inversion H'; reflexivity|]. eapply Hcmp; [|exact H']; assumption.
+    + rewrite bool_chain_S in H0. unfold bool_chain_body in H0. destruct args as [|e r].
+      * inversion H0; reflexivity.
+      * cbn [forallb] in H. split_and.
+        destruct (rbind_ok _ _ _ _ _ H0) as ([v' m] & E & H'). apply Hev in E; [subst m|assumption].
+        destruct (as_bool v') as [b| |]; cbn [rbind] in H'; try discriminate.
+        destruct (Bool.eqb b u); [|inversion H'; reflexivity].
+        destruct r; [inversion H'; reflexivity|]. eapply Hbool; [|exact H']; assumption.
+Qed.
+
+Lemma eval_pure_store : forall n s mu C e v mu1,
+  pure_na e = true -> eval N P n s mu C e = ROk (v, mu1) -> mu1 = mu.
+Proof. intros n. destruct (pure_all n) as (K & _). exact K. Qed.
+
+(* ---------------------------------------------------------------- frame *)
+Definition okeeps (W : vars) (s : env) (o : outcome) : Prop :=
+  match o with ONormal s' => keeps W s s' | OReturn _ => True end.
+
+Definition frame_at (n : nat) : Prop :=
+  (forall s mu C st o mu', exec N P n s mu C st = ROk (o, mu') -> okeeps (bound st) s o) /\
+  (forall s mu C b o mu', exec_block N P n s mu C b = ROk (o, mu') -> okeeps (bound_block b) s o) /\
+  (forall s mu C p l i body o mu', for_loop N P n s mu C p l i body = ROk (o, mu') ->
+     okeeps (pvars p ++ bound_block body) s o).
+
+Lemma okeeps_incl : forall W W' s o, okeeps W s o -> incl W W' -> okeeps W' s o.
+Proof. intros W W' s [s'|v] H Hi; cbn in *; auto. eapply keeps_incl; eauto. Qed.
+
+Lemma okeeps_trans : forall W1 W2 s s1 o, keeps W1 s s1 -> okeeps W2 s1 o -> okeeps (W1 ++ W2) s o.
+Proof. intros W1 W2 s s1 [s'|v] H1 H2; cbn in *; auto. eapply keeps_trans; eauto. Qed.
+
+Lemma frame_all : forall n, frame_at n.
+Proof.
+  induction n as [|n IH].
+  - unfold frame_at. repeat split; intros; discriminate.
+  - destruct IH as (Hex & Hexb & Hfor).
+    unfold frame_at. repeat split; intros.
+    + rewrite exec_S in H. unfold exec_body in H. destruct st; cbn [bound].
+      * (* SAssign *)
+        destruct (rbind_ok _ _ _ _ _ H) as ([v m] & E & H'). clear H.
+        destruct (bind_pat p v s) as [s'|] eqn:B; cbn [lift rbind] in H'; try discriminate.
+        inversion H'; subst. cbn. eapply bind_pat_keeps; eassumption.
+      * (* SIndexAssign *)
+        destruct (rbind_ok _ _ _ _ _ H) as ([v m] & E & H'). clear H.
+        destruct (env_get s x); try discriminate.
+        destruct (rbind_ok _ _ _ _ _ H') as (m2 & E2 & H''). inversion H''; subst. cbn. apply keeps_refl.
+      * (* SIf1 *)
+        destruct (rbind_ok _ _ _ _ _ H) as ([v m] & E & H'). clear H.
+        destruct (as_bool v) as [t| |]; cbn [rbind] in H'; try discriminate.
+        destruct t; [eapply Hexb; eassumption | inversion H'; subst; cbn; apply keeps_refl].
+      * (* SIf *)
+        destruct (rbind_ok _ _ _ _ _ H) as ([v m] & E & H'). clear H.
+        destruct (as_bool v) as [t| |]; cbn [rbind] in H'; try discriminate.
+        destruct t; (eapply okeeps_incl; [eapply Hexb; eassumption|]); intros z Hz; apply in_or_app; auto.
+      * (* SWhile *)
+        destruct (rbind_ok _ _ _ _ _ H) as ([v m] & E & H'). clear H.
+        destruct (as_bool v) as [t| |]; cbn [rbind] in H'; try discriminate.
+        destruct t; [|inversion H'; subst; cbn; apply keeps_refl].
+        destruct (rbind_ok _ _ _ _ _ H') as ([o1 m1] & E1 & H''). clear H'.
+        pose proof (Hexb _ _ _ _ _ _ E1) as K1.
+        destruct o1 as [s1|v1]; [|inversion H''; subst; cbn; trivial].
+        pose proof (Hex _ _ _ _ _ _ H'') as K2. cbn [bound] in K2.
+        eapply okeeps_incl; [eapply okeeps_trans; [exact K1 | exact K2]|].
+        intros z Hz. apply in_app_or in Hz. destruct Hz; assumption.
+      * (* SFor *)
+        destruct (rbind_ok _ _ _ _ _ H) as ([v m] & E & H'). clear H.
+        destruct (as_list m v) as [[l vs]| |]; cbn [rbind] in H'; try discriminate.
+        eapply Hfor; eassumption.
+      * (* SContext *)
+        destruct (rbind_ok _ _ _ _ _ H) as ([v m] & E & H'). clear H.
+        destruct v; try discriminate.
+        pose proof (Hexb _ _ _ _ _ _ H') as K.
+        destruct x as [x|]; cbn [ovar].
+        -- eapply (okeeps_trans [x]); [|exact K].
+           intros z Hz. apply env_get_set_other. intro; subst; apply Hz; left; reflexivity.
+        -- exact K.
+      * (* SAssert *)
+        destruct (rbind_ok _ _ _ _ _ H) as ([v m] & E & H'). clear H.
+        destruct (as_bool v) as [t| |]; cbn [rbind] in H'; try discriminate.
+        destruct t; [inversion H'; subst; cbn; apply keeps_refl | discriminate].
+      * destruct (rbind_ok _ _ _ _ _ H) as ([v m] & E & H'). inversion H'; subst. cbn. apply keeps_refl.
+      * destruct (rbind_ok _ _ _ _ _ H) as ([v m] & E & H'). inversion H'; subst. cbn. trivial.
+      * inversion H; subst. cbn. apply keeps_refl.
+    + rewrite exec_block_S in H. unfold exec_block_body in H. destruct b as [|st r].
+      * inversion H; subst. cbn. apply keeps_refl.
+      * destruct (rbind_ok _ _ _ _ _ H) as ([o1 m1] & E1 & H'). clear H.
+        pose proof (Hex _ _ _ _ _ _ E1) as K1.
+        destruct o1 as [s1|v1]; [|inversion H'; subst; cbn; trivial].
+        pose proof (Hexb _ _ _ _ _ _ H') as K2.
+        unfold bound_block. cbn [flat_map]. eapply okeeps_trans; eassumption.
+    + rewrite for_loop_S in H. unfold for_loop_body in H.
+      destruct (store_get mu l) as [vs|]; try discriminate.
+      destruct (nth_error vs i) as [x|]; [|inversion H; subst; cbn; apply keeps_refl].
+      destruct (bind_pat p x s) as [s1|] eqn:B; cbn [lift rbind] in H; try discriminate.
+      destruct (rbind_ok _ _ _ _ _ H) as ([o1 m1] & E1 & H'). clear H.
+      pose proof (bind_pat_keeps _ _ _ _ B) as K0.
+      pose proof (Hexb _ _ _ _ _ _ E1) as K1.
+      destruct o1 as [s2|v1]; [|inversion H'; subst; cbn; trivial].
+      pose proof (Hfor _ _ _ _ _ _ _ _ _ H') as K2.
+      cbn in K1. pose proof (keeps_trans _ _ _ _ _ K0 K1) as K01.
+      eapply okeeps_incl; [eapply okeeps_trans; [exact K01 | exact K2]|].
+      intros z Hz. apply in_app_or in Hz. destruct Hz; assumption.
+Qed.
+
+Lemma exec_frame : forall n s mu C st s' mu',
+  exec N P n s mu C st = ROk (ONormal s', mu') -> keeps (bound st) s s'.
+Proof. intros n s mu C st s' mu' H. destruct (frame_all n) as (K & _). apply (K _ _ _ _ _ _ H). Qed.
+
+Lemma exec_block_frame : forall n s mu C b s' mu',
+  exec_block N P n s mu C b = ROk (ONormal s', mu') -> keeps (bound_block b) s s'.
+Proof. intros n s mu C b s' mu' H. destruct (frame_all n) as (_ & K & _). apply (K _ _ _ _ _ _ H). Qed.
+
+Lemma for_loop_frame : forall n s mu C p l i body s' mu',
+  for_loop N P n s mu C p l i body = ROk (ONormal s', mu') -> keeps (pvars p ++ bound_block body) s s'.
+Proof. intros n s mu C p l i body s' mu' H. destruct (frame_all n) as (_ & _ & K). apply (K _ _ _ _ _ _ _ _ _ H). Qed.
+
 End Eval.
